@@ -92,10 +92,23 @@ pub fn guarded<F: FnOnce() -> ImplOut>(f: F) -> ImplOut {
     crate::quiet(AssertUnwindSafe(f)).unwrap_or(ImplOut::Panic)
 }
 
+/// The reader is handed over by value, by `&mut` or in a `Box` (the forwarding `Skip` impls), rotating with the input:
+/// the answer may not depend on the carrier, so every MP4 check exercises all three.
 pub fn run_mp4(s: &Sparse, cfg: &Cfg, kind: Kind) -> ImplOut {
-    guarded(|| match kind {
-        Kind::Seekable => canon(mp4san::sanitize_with_config(SeekSkipAdapter(SeekReader::new(s)), cfg.build())),
-        Kind::Strict => canon(mp4san::sanitize_with_config(StrictReader::new(s), cfg.build())),
+    let carrier = (s.len ^ (s.len >> 7) ^ cfg.max) % 3;
+    guarded(|| match (kind, carrier) {
+        (Kind::Seekable, 0) => canon(mp4san::sanitize_with_config(SeekSkipAdapter(SeekReader::new(s)), cfg.build())),
+        (Kind::Seekable, 1) => {
+            let mut r = SeekSkipAdapter(SeekReader::new(s));
+            canon(mp4san::sanitize_with_config(&mut r, cfg.build()))
+        }
+        (Kind::Seekable, _) => canon(mp4san::sanitize_with_config(Box::new(SeekSkipAdapter(SeekReader::new(s))), cfg.build())),
+        (Kind::Strict, 0) => canon(mp4san::sanitize_with_config(StrictReader::new(s), cfg.build())),
+        (Kind::Strict, 1) => {
+            let mut r = StrictReader::new(s);
+            canon(mp4san::sanitize_with_config(&mut r, cfg.build()))
+        }
+        (Kind::Strict, _) => canon(mp4san::sanitize_with_config(Box::new(StrictReader::new(s)), cfg.build())),
     })
 }
 
